@@ -59,6 +59,8 @@ def unit_grid(nu: int, nv: int, triangulate: bool = False, generate_uvs: bool=Fa
     Returns:
         SurfaceMesh: a subdivided unit grid of size nu*nv
     """
+    if nu<2 or nv<2:
+        raise Exception("nu and nv should be >= 2 for a valid grid. Aborting")
     out = RawMeshData()
     U = np.linspace(0,1,nu)
     V = np.linspace(0,1,nv)
